@@ -40,6 +40,12 @@ CHECKS = [
  chk("C17", "Same simulated histories as C16 with the oracles of C17: stopping rule on the added masses, element-derived masses against an independent mass table, explicit zero reactivities never chosen (also under steered and boundary entropy values), terminal rules per atom, and reproducibility of atomic construct-and-sample ops against a pristine reference process after arbitrary histories (other seeds, foreign RNG use, aborted calls, co-tenants), at any simulated clock value and across interpreters with different PYTHONHASHSEED.",
      "Trusted: construct-and-sample is judged as one atomic op (interleaving another construction between the two is outside the statement); only explicit zeros are judged; masses within 1e-3 relative of the harness' table.",
      "deterministic simulation: owned entropy with steering and edge values, simulated clock, history faults, isolation reference, cross-interpreter log comparison", "DESIGN.md 4/C17"),
+ chk("C18", "RDKit's stochastic embedder is put behind a seam (cgsmiles.rdkit.AllChem): a stub engine that hands every atom index a unique coordinate decides 'each node stores the coordinates of its own atom' literally for every node ordering and relabelling; the real engine with a simulator-supplied seed decides bonding distances; round trips with and without conformer, forward map against a harness-computed weighted average, translation equivariance, over short histories of bridge calls on resolved multi-fragment molecules (weights, shared atoms, rings, hydrogens interleaved). Three defects found this way were repaired (fix: commits), one is a listed known finding.",
+     "Trusted: RDKit itself; the 0.7-2.3 A window for the workload alphabet; round-trip equality by labelled-graph isomorphism. Known finding C18-localised-ring-aromatised is matched on oracle+signature computed from the failing input.",
+     "deterministic simulation with the external stochastic engine behind a seam: attributable-coordinate stub + seeded real engine, seeded histories and node-order permutations", "DESIGN.md 4/C18"),
+ chk("C19", "vespr_layout draws its start configuration from the numpy global generator; the simulator owns that state (sets it from the run's PRNG or lets a history of earlier layouts and foreign draws decide it, digests logged) and searches over graphs (chains, stars, rings, fused rings, trees with ring closures, resolved molecules with hydrogens and ez_isomer annotations), bond-length settings and relabellings; oracle: one finite 2D position per node, no bonded pair coincides, mean bond length equals the request.",
+     "Trusted: numpy's global generator is the layout's only entropy source (checked by state digests and by the cross-interpreter determinism pairs); tolerance 1e-7 relative on the mean bond length.",
+     "deterministic simulation of a randomised algorithm: owned global RNG state + history faults (foreign draws, inherited state) + relabelling under identical state", "DESIGN.md 4/C19"),
 ]
 
 m = {
